@@ -344,7 +344,9 @@ def r02_2(chk, repo, F):
         # nothing re-assigns the variable between unique and return
         clobber = [n for n in cfg.nodes if n.kind == "stmt" and isinstance(n.ast, ast.Assign) and norm(n.ast.targets[0]) == v
                    and n not in uniq and any(view.reaches(u, n) for u in from_uniq)]
-        early_empty = any("size" in t and "== 0" in t.replace("  ", " ") for t, lab in rules.controlling_tests(view, r))
+        early_empty = any("size" in t and "== 0" in t.replace("  ", " ") and lab == "T" for t, lab in rules.controlling_tests(view, r))
+        if early_empty and not any(view.dominates(u, r) for u in uniq):
+            early_empty = False      # an "empty" shortcut taken before de-duplication is not the de-duplicated list
         if early_empty:
             chk.ob("R02.2a", fi.qualname + "::empty-selection-returns", True, fi.where(r.ast), "empty selection is returned as is")
             continue
